@@ -26,7 +26,7 @@ RULE = (
     "declaration model's normal form. non-trivial = a history that contains at least one life-cycle call before a write"
 )
 ASSUMPTIONS = [
-    "delete is only issued while the mesh is not assembled; moves only while it is (the statement does not define the other cases)",
+    "an operation may be deleted at any time; after a deletion in the assembled state, write and move are disabled until the next assembly (clear + assemble, backport): the statement defines what the next assembly gives, not what a write of the present one does",
     "order of patches inside 'boundary' is not compared (dictionary order is immaterial to blockMesh semantics of the listed faces)",
     "a merge_patches call takes part in vertex duplication only if issued before the assembly that is written",
 ]
@@ -95,18 +95,29 @@ class Model:
         self.proj[1] = [("corner", 0, "terrain"), ("edge", 0, 3, "terrain"), ("side", "left", "terrain")]
         self.deleted = set()
         self.assembled = False
+        self.assembled_ops = []  # operations the assembly in force was made from
         self.moves = []  # pending (op, corner, delta) on assembled vertices
         self.mods = []  # (event, phase) phase: "pre" if before the assembly currently in force
         self.merges_in_force = []  # merges known at the assembly in force
 
+    @property
+    def stale(self):
+        """an operation was deleted after the assembly in force was made: the statement defines what the NEXT
+        assembly (clear + assemble, backport) gives, not what a write of the present one does"""
+        return self.assembled and any(o in self.deleted for o in self.assembled_ops)
+
     def enabled(self, ev):
         if ev == "A":
             return not self.assembled
-        if ev in ("B", "M0", "M1", "C"):
+        if ev == "W":
+            return not self.stale
+        if ev in ("M0", "M1"):
+            return self.assembled and not self.stale
+        if ev in ("B", "C"):
             return self.assembled
         if ev[0] == "D":
             i = int(ev[1:])
-            return (not self.assembled) and i not in self.deleted and len(self.deleted) < self.n - 1
+            return i not in self.deleted and len(self.deleted) < self.n - 1
         if ev in ("M0", "M1"):
             return self.assembled
         return True
@@ -123,13 +134,14 @@ class Model:
             return (tuple(np.round(self.cur_pos(o, c), 6)), frozenset(at & slaves))
 
         k0 = key(op, corner)
-        return [(o, c) for o in range(self.n) if o not in self.deleted for c in range(8) if key(o, c) == k0]
+        return [(o, c) for o in self.assembled_ops for c in range(8) if key(o, c) == k0]
 
     def cur_pos(self, o, c):
         return self.pts[o][c]
 
     def _assemble(self):
         self.assembled = True
+        self.assembled_ops = [i for i in range(self.n) if i not in self.deleted]
         self.mods = [(m, "pre") for m, _ in self.mods]
         self.merges_in_force = [m for m, _ in self.mods if m == "R"]
         self.moves = []
@@ -145,7 +157,7 @@ class Model:
             self.moves = []
         elif ev in MOVES:
             corner, delta = MOVES[ev]
-            op = min(i for i in range(self.n) if i not in self.deleted)
+            op = self.assembled_ops[0]
             self.moves.append((op, corner, delta))
         elif ev == "B":
             # every operation corner that refers to the moved vertex follows it
@@ -258,8 +270,8 @@ def replay(variant, history):
                 mesh.backport()
             elif ev in MOVES:
                 corner, delta = MOVES[ev]
-                op = live[0]
-                v = find_vertex(mesh, live, op, corner)
+                op = model.assembled_ops[0]
+                v = find_vertex(mesh, model.assembled_ops, op, corner)
                 v.move_to(v.position + np.array(delta))
             elif ev[0] == "D":
                 mesh.delete(ops[int(ev[1:])])
